@@ -485,6 +485,35 @@ def run(ctx, report):
                     R2.violation(inst, 'dict_to_ad:ad_size:%s:%s' % (c.name, S), 'memory operand size %s of row %s is not in dict_to_ad.ad_size' % (S, c.row.key()), where(arch, c.row.node))
                 else:
                     R2.ok(inst, nontrivial=False)
+    # MMX/SSE rows: the size _dis gives the memory form under each mandatory prefix (selection chain and per-mnemonic size table evaluated) must be a key of
+    # dict_to_ad.ad_size -- both renderings go through that table
+    PBYTES = {'np': [], '66': [0x66], 'f2': [0xF2], 'f3': [0xF3]}
+    done_rows = set()
+    n_mmx_mem = 0
+    for c in D.variants:
+        if not c.modifs.get(E['mmx']) or (c.row.idx, tuple(sorted((str(k), v) for k, v in c.modifs.items() if v))) in done_rows:
+            continue
+        done_rows.add((c.row.idx, tuple(sorted((str(k), v) for k, v in c.modifs.items() if v))))
+        digit = isinstance(c.row.afs, int)
+        rv = type('RowView', (), {})()
+        rv.opc, rv.afs = c.opc, c.row.afs
+        for pk, pb in PBYTES.items():
+            r = X.dis_mmx_modes(c.name, pb, bool(c.modifs.get(E['sw'])), digit=digit, row=rv)
+            if isinstance(r, str):
+                continue                            # rejected / belief site: no instruction, or reported by D1
+            opm, adm, swap = r
+            szs = X.dis_operand_sizes(c.name, c.modifs, c.row.rm, c.opc, c.row.afs, True, opm, adm, pb)
+            if isinstance(szs, str):
+                continue
+            n_mmx_mem += 1
+            inst = 'dict_to_ad:%s:%s' % (c.row.key(), pk)
+            if szs[1] not in ad_size_keys:
+                R2.violation(inst, 'dict_to_ad:ad_size:%s:%s:%s' % (c.name, pk, szs[1]), 'the memory form of row %s under prefix %s gets operand size %r, which is not a key of dict_to_ad.ad_size: '
+                             'the instruction decodes but cannot be rendered (KeyError)' % (c.row.key(), pk, szs[1]), where(arch, c.row.node))
+            else:
+                R2.ok(inst, nontrivial=(n_mmx_mem % 8 == 0), sample='%s prefix %s: memory size %s is rendered' % (c.row.key(), pk, szs[1]))
+    if n_mmx_mem < 300:
+        raise AnalysisError('C10.D2: only %d MMX/SSE memory forms were sized (expected several hundred)' % n_mmx_mem)
 
     # -------------------------------------------------------------- D3 assembler
     R3 = report.rule('C10.D3', 'assembler closure: only the documented ValueError is raised; no belief site or always-raising construct', floor=15)
@@ -1031,6 +1060,7 @@ def mandatory_prefix_rule(ctx, R, X):
 
 
 MUTANTS = [
+    ('mmx-mem-size-unrenderable', 'miasmx/arch/ia32_arch.py', "    '#p#movsxdq': x86_afs.f64, '#p#movzxdq': x86_afs.f64,", "    '#p#movsxdq': x86_afs.u64, '#p#movzxdq': x86_afs.u64,", 'C10.D2'),
     ('x87-size-keyerror', 'miasmx/arch/ia32_arch.py', "x86_afs.f32:x86_afs.f32, x86_afs.f64:x86_afs.f64}.get(size)", "x86_afs.f32:x86_afs.f32, x86_afs.f64:x86_afs.f64}[size]", 'C10.D3'),
     ('dis-failure-no-rewind', 'miasmx/arch/ia32_arch.py', "            if init_offset is not None:\n                # nothing was decoded: leave the stream where it was\n                op.offset = init_offset\n", "", 'C10.D4'),
     ('rekey-while-iterating', 'miasmx/arch/ia32_arch.py', "                    for x in list(tmp_order[1]):", "                    for x in tmp_order[1]:", 'C10.D3'),
